@@ -110,7 +110,7 @@ def run_big(case):
                 return out
         for mode in case["modes"]:
             rcase = {"phase": mode, "arc": arc, "members": members, "password": case.get("password"), "out": os.path.join(wd, "out"),
-                     "limit": case.get("limit")}
+                     "limit": case.get("limit"), "rlimit_data": case.get("rlimit_data")}
             r = child(rcase, tmo)
             if case.get("declared"):
                 ok = not r.get("timeout") and not r.get("died")          # any clean verdict; memory is what is judged
@@ -196,6 +196,9 @@ def plan(tier, R):
     add("lzma2-between", F("LZMA2"), small * 10 + [(big, Z)] + small * 10, ("extract-path",))
     add("brotli-between", F("Brotli"), small * 30 + [(big, P_)] + small * 3, ("extract-factory",))
     add("copy-small-first", F("Copy"), small * 300 + [(512 * MiB, X)], ("extract-factory",))
+    # --- under a finite data-segment limit (ulimit -d 8 GiB / 3 GiB) the extraction chunk stays capped
+    add("lzma2-zeros-rlimit8g", F("LZMA2"), small * 2 + [(big, Z)] + small, ("extract-factory", "extract-path"), rlimit_data=8 * GiB)
+    add("zstd-period-rlimit3g", F("ZStd"), [(big, P_)], ("extract-factory",), rlimit_data=3 * GiB)
     # --- a series of writestr calls: nothing of an archived member is kept
     add("writestr-series", F("ZStd"), [(100 * MiB, X)] * 9, ("testzip",), how="writestr")
     # --- the chunk limit scaled down to 1 MiB: every chain, a decoder that ignores the request shows at once
